@@ -533,11 +533,17 @@ func freeRecord(rec *record.Record) {
 	}
 }
 
+// CompactRecovery must be deferred directly (defer CompactRecovery(...)); called from inside another deferred
+// function its recover() returns nil.
 func CompactRecovery(path string, group *CompactGroup) {
 	if err := recover(); err != nil {
-		panicInfo := fmt.Sprintf("[Compact Panic:err:%s, name:%s, shard:%d, level:%d, group:%v, path:%s] %s",
-			err, group.name, group.shardId, group.toLevel, group.group, path, debug.Stack())
-		errMsg := errno.NewError(errno.CompactPanicFail)
-		log.Error(panicInfo, zap.Error(errMsg))
+		logCompactPanic(err, path, group)
 	}
+}
+
+func logCompactPanic(err interface{}, path string, group *CompactGroup) {
+	panicInfo := fmt.Sprintf("[Compact Panic:err:%s, name:%s, shard:%d, level:%d, group:%v, path:%s] %s",
+		err, group.name, group.shardId, group.toLevel, group.group, path, debug.Stack())
+	errMsg := errno.NewError(errno.CompactPanicFail)
+	log.Error(panicInfo, zap.Error(errMsg))
 }
